@@ -1,12 +1,180 @@
-(* C16/Props.v -- pinned property theorems; nothing but statements closed by `exact`. *)
+(* C16/Props.v -- pinned property theorems; nothing but statements closed by `exact`.
+   External functions (SHA-256 `Hf`, bitcode `ser_tx`, the validator registry + Ed25519 `registered` /
+   `sig_valid` / `sign`, the state-root function `SR`) are universally quantified; every cryptographic
+   premise is a visible hypothesis and every conclusion about tampering is in collision-or form:
+     Collision Hf          = exists x y, x <> y /\ Hf x = Hf y
+     Forgery reg sv log    = exists p m s, reg p = true /\ sv p m s = true /\ ~ In (p, m, s) log
+   where `siglog` lists every (signer, message, signature) the chain's own blocks carry. *)
 From NV.Common Require Import Base.
 From NV.C16 Require Import Model Proofs Inst.
 From NV.gen Require Import Gen_C16.
 Open Scope N_scope.
 
+(* 1. every chain built through append verifies.  `built` = a genesis record followed by successful
+   Chain::append calls; the two side conditions of an append step are discharged by the flags when the
+   source contains the corresponding check and are otherwise explicit (known findings
+   append-timestamp-regression and first-block-unsigned: see the _refuted witnesses below). *)
+Theorem C16_append_built_chain_verifies : forall Hf ser_tx registered sig_valid fl bm m,
+  built Hf ser_tx registered sig_valid fl bm m ->
+  verify_chain Hf ser_tx registered sig_valid fl bm (m_height m) = 0.
+Proof. exact append_verifies. Qed.
+Example C16_built_nonvacuous : Wit.verify1 Wit.s3 = 0 /\ m_height (t_mem Wit.s3) = 3.
+Proof. exact Wit.s3_verifies. Qed.
+
+Theorem C16_first_block_unsigned_refuted :
+  exists b s', append_raw Wit.Hc Wit.serc Wit.regc Wit.sigvc Wit.fl_now Wit.s0 b = (s', 0) /\ Wit.verify1 s' <> 0.
+Proof. exact Wit.first_block_unsigned_refuted. Qed.
+Theorem C16_append_timestamp_regression_refuted :
+  exists s b s', Wit.verify1 s = 0 /\ append_raw Wit.Hc Wit.serc Wit.regc Wit.sigvc Wit.fl_now s b = (s', 0) /\ Wit.verify1 s' <> 0.
+Proof. exact Wit.append_timestamp_regression_refuted. Qed.
+
+(* 2. forgery: ANY record written over stored block i (1 <= i <= n) that still verifies needs a signature
+   the validators never produced, or carries the same pre-image, signature and proposer *)
+Theorem C16_forged_block : forall Hf ser_tx registered sig_valid fl bm n i b b',
+  verify_chain Hf ser_tx registered sig_valid fl bm n = 0 -> HeightsOK bm n -> n < U64 -> 1 <= i <= n ->
+  aget bm i = Some b ->
+  verify_chain Hf ser_tx registered sig_valid fl (aset bm i b') n = 0 ->
+  Forgery registered sig_valid (siglog bm n) \/
+  (pre (b_hdr b') = pre (b_hdr b) /\ h_sig (b_hdr b') = h_sig (b_hdr b) /\
+   h_proposer (b_hdr b') = h_proposer (b_hdr b) /\ tx_root_ok Hf ser_tx b' = true).
+Proof. exact forged_block_v. Qed.
+
+(* 3. single-field mutation of any hashed header field (height, prev_hash, tx_root, state_root,
+   delta_embedding, quantized_codes, timestamp, proposer -- `mut1`, on the concrete byte concatenation)
+   or of header.signature *)
+Theorem C16_single_field_mutation : forall Hf ser_tx registered sig_valid fl bm n i b h',
+  verify_chain Hf ser_tx registered sig_valid fl bm n = 0 -> HeightsOK bm n -> n < U64 -> 1 <= i <= n ->
+  aget bm i = Some b -> WellSized (b_hdr b) ->
+  (mut1 (b_hdr b) h' \/ exists v, v <> h_sig (b_hdr b) /\ h' = set_sig v (b_hdr b)) ->
+  verify_chain Hf ser_tx registered sig_valid fl (aset bm i (Bk h' (b_txs b) (b_sigs b))) n = 0 ->
+  Forgery registered sig_valid (siglog bm n).
+Proof. exact single_field_mutation_v. Qed.
+Example C16_tamper_hypotheses_nonvacuous :
+  verify_chain Wit.Hc Wit.serc Wit.regc Wit.sigvc Wit.fl_now Wit.bm3 3 = 0 /\ HeightsOK Wit.bm3 3.
+Proof. split; [exact (proj1 Wit.s3_verifies)|exact Wit.s3_heights]. Qed.
+
+Theorem C16_single_field_preimage_injective : forall h h', WellSized h -> mut1 h h' -> pre h' <> pre h.
+Proof. exact mut1_pre_neq. Qed.
+Theorem C16_multi_field_preimage_collision : exists h h', h <> h' /\ pre h = pre h'.
+Proof. exact multi_field_preimage_collision. Qed.
+
+(* 4. the transaction list replaced by a different list of the same length (altered or reordered) *)
+Theorem C16_tx_list_mutation : forall Hf ser_tx registered sig_valid fl bm n i b l',
+  (forall x, length (Hf x) = 32%nat) -> (forall a b, ser_tx a = ser_tx b -> a = b) ->
+  verify_chain Hf ser_tx registered sig_valid fl bm n = 0 -> 1 <= i <= n -> aget bm i = Some b ->
+  l' <> b_txs b -> length l' = length (b_txs b) ->
+  verify_chain Hf ser_tx registered sig_valid fl (aset bm i (with_txs l' b)) n = 0 -> Collision Hf.
+Proof. exact tx_list_mutation_v. Qed.
+Example C16_merkle_hypotheses_nonvacuous :
+  (forall x, length (Wit.H32 x) = 32%nat) /\ (forall a b, Wit.serc a = Wit.serc b -> a = b).
+Proof. split; [exact Wit.H32_len|exact Wit.serc_inj]. Qed.
+(* ... a list of DIFFERENT length can keep the root without any collision (known finding merkle-duplicate-tail) *)
+Theorem C16_merkle_duplicate_tail_refuted :
+  (forall Hf a b c, merkle_root Hf [a; b; c; c] = merkle_root Hf [a; b; c]) /\
+  exists b, aget Wit.bm3 2 = Some b /\
+    verify_chain Wit.Hc Wit.serc Wit.regc Wit.sigvc Wit.fl_now (aset Wit.bm3 2 (with_txs (b_txs b ++ [TPut 4 [10]]) b)) 3 = 0.
+Proof. split; [exact merkle_duplicate_tail|exact Wit.merkle_duplicate_tail_refuted]. Qed.
+
+(* 5. the genesis record is held by block 1's predecessor hash *)
+Theorem C16_genesis_mutation : forall Hf ser_tx registered sig_valid fl bm n g g',
+  verify_chain Hf ser_tx registered sig_valid fl bm n = 0 -> 1 <= n -> aget bm 0 = Some g ->
+  pre (b_hdr g') <> pre (b_hdr g) ->
+  verify_chain Hf ser_tx registered sig_valid fl (aset bm 0 g') n = 0 -> Collision Hf.
+Proof. exact genesis_mutation_v. Qed.
+Theorem C16_genesis_unlinked_refuted :
+  (exists g, aget Wit.bm3 0 = Some g /\
+     verify_chain Wit.Hc Wit.serc Wit.regc Wit.sigvc Wit.fl_now (aset Wit.bm3 0 (with_hdr (set_sig [1]) g)) 3 = 0) /\
+  (forall bm, verify_chain Wit.Hc Wit.serc Wit.regc Wit.sigvc Wit.fl_now bm 0 = 0).
+Proof. exact Wit.genesis_unlinked_refuted. Qed.
+
+(* 6. removal and reordering are detected outright *)
+Theorem C16_removed_block_detected : forall Hf ser_tx registered sig_valid fl bm n i,
+  1 <= n -> i <= n -> verify_chain Hf ser_tx registered sig_valid fl (adel bm i) n <> 0.
+Proof. exact removed_block_detected. Qed.
+Theorem C16_swapped_blocks_detected : forall Hf ser_tx registered sig_valid fl bm n i j bi bj,
+  HeightsOK bm n -> i < j <= n -> aget bm i = Some bi -> aget bm j = Some bj ->
+  verify_chain Hf ser_tx registered sig_valid fl (aset (aset bm i bj) j bi) n <> 0.
+Proof. exact swapped_blocks_detected. Qed.
+
+(* 7. Block.signatures is outside hash and signature: altering it is never noticed (known finding) *)
+Theorem C16_block_signatures_refuted : forall Hf ser_tx registered sig_valid fl bm n i b l,
+  aget bm i = Some b ->
+  verify_chain Hf ser_tx registered sig_valid fl (aset bm i (with_sigs l b)) n =
+  verify_chain Hf ser_tx registered sig_valid fl bm n.
+Proof. exact block_signatures_unauthenticated. Qed.
+
+(* 8. a sequential commit is all-or-nothing *)
+Theorem C16_commit_all_or_nothing : forall Hf ser_tx registered sig_valid sign SR fl me emb maxtx s w ts s' e,
+  commit Hf ser_tx registered sig_valid sign SR fl me emb maxtx s w ts = (s', e) ->
+  (e = 0 /\ exists x, aget (t_ws s) w = Some x /\
+     ((w_ops x = [] /\ t_store s' = t_store s /\ t_mem s' = t_mem s) \/
+      (w_ops x <> [] /\ s_data (t_store s') = apply_txs (s_data (t_store s)) (w_ops x) /\
+       m_height (t_mem s') = m_height (t_mem s) + 1 /\
+       exists blk, s_blocks (t_store s') = aset (s_blocks (t_store s)) (m_height (t_mem s) + 1) blk /\ b_txs blk = w_ops x)))
+  \/ (e <> 0 /\ t_store s' = t_store s /\ t_mem s' = t_mem s).
+Proof. exact commit_all_or_nothing. Qed.
+(* rollback leaves everything untouched when nothing was committed since the workspace began ... *)
+Theorem C16_rollback_untouched : forall s w s' x,
+  aget (t_ws s) w = Some x -> w_chk x = t_store s -> rollback s w = (s', 0) ->
+  t_store s' = t_store s /\ t_mem s' = t_mem s.
+Proof. exact rollback_untouched. Qed.
+(* ... and destroys later commits otherwise (known finding rollback-stale-checkpoint) *)
+Theorem C16_rollback_stale_checkpoint_refuted :
+  exists s w, Wit.verify1 s = 0 /\ snd (rollback s w) = 0 /\ Wit.verify1 (fst (rollback s w)) <> 0.
+Proof. exact Wit.rollback_stale_checkpoint_refuted. Qed.
+
+(* 9. replaying equal block lists from equal images gives equal stores (hence equal state roots), memories and verdicts *)
 Theorem C16_replay_deterministic : forall Hf ser_tx registered sig_valid SR fl sto1 m1 sto2 m2 bs1 bs2,
   sto1 = sto2 -> m1 = m2 -> bs1 = bs2 ->
   replay Hf ser_tx registered sig_valid SR fl sto1 m1 bs1 = replay Hf ser_tx registered sig_valid SR fl sto2 m2 bs2.
 Proof. exact replay_deterministic. Qed.
 
+(* 10. concurrent commits, serialised variant (commit lock held from pre-image to append): for EVERY schedule
+   with a non-decreasing clock the chain stays valid and the blocks above the initial height h0 are exactly the
+   successfully committed workspaces, each once, in commit order (CI) *)
+Theorem C16_serialised_commits : forall Hf ser_tx registered sig_valid sign SR fl me emb,
+  f_commit_locked fl = true -> registered me = true ->
+  (forall m, sig_valid me m (sign me m) = true) -> (forall m, sign me m <> []) ->
+  forall h0 sched s lo,
+  CI Hf ser_tx registered sig_valid fl h0 s -> tip_ts_le (s_blocks (c_store s)) (c_mem s) lo -> clock_mono lo sched ->
+  CI Hf ser_tx registered sig_valid fl h0 (crun Hf ser_tx registered sig_valid sign SR fl me emb s sched).
+Proof. exact serialised_commits. Qed.
+Theorem C16_serialised_commits_verify : forall Hf ser_tx registered sig_valid sign SR fl me emb,
+  f_commit_locked fl = true -> registered me = true ->
+  (forall m, sig_valid me m (sign me m) = true) -> (forall m, sign me m <> []) ->
+  forall h0 sched s lo,
+  CI Hf ser_tx registered sig_valid fl h0 s -> tip_ts_le (s_blocks (c_store s)) (c_mem s) lo -> clock_mono lo sched ->
+  cverify Hf ser_tx registered sig_valid fl (crun Hf ser_tx registered sig_valid sign SR fl me emb s sched) = 0.
+Proof. exact serialised_commits_verify. Qed.
+(* the racy variant (no lock) is refuted: F-C16-race, repaired by bc26b986; the per-run obligation
+   Inst.gen_flags_ok says the lock is present in the source *)
+Theorem C16_racy_commits_refuted :
+  exists sched, clock_mono 100 sched /\
+    cverify Wit.Hc Wit.serc Wit.regc Wit.sigvc Wit.fl_racy
+      (crun Wit.Hc Wit.serc Wit.regc Wit.sigvc Wit.signc Wit.SRc Wit.fl_racy Wit.me [] Wit.c0 sched) <> 0.
+Proof. exact Wit.racy_commits_refuted. Qed.
+Theorem C16_source_is_serialised : f_commit_locked gen_flags = true /\ f_genesis_txroot gen_flags = true.
+Proof. destruct gen_flags_ok as (A & B & C). split; assumption. Qed.
+
+Print Assumptions C16_append_built_chain_verifies.
+Print Assumptions C16_first_block_unsigned_refuted.
+Print Assumptions C16_append_timestamp_regression_refuted.
+Print Assumptions C16_forged_block.
+Print Assumptions C16_single_field_mutation.
+Print Assumptions C16_single_field_preimage_injective.
+Print Assumptions C16_multi_field_preimage_collision.
+Print Assumptions C16_tx_list_mutation.
+Print Assumptions C16_merkle_duplicate_tail_refuted.
+Print Assumptions C16_genesis_mutation.
+Print Assumptions C16_genesis_unlinked_refuted.
+Print Assumptions C16_removed_block_detected.
+Print Assumptions C16_swapped_blocks_detected.
+Print Assumptions C16_block_signatures_refuted.
+Print Assumptions C16_commit_all_or_nothing.
+Print Assumptions C16_rollback_untouched.
+Print Assumptions C16_rollback_stale_checkpoint_refuted.
 Print Assumptions C16_replay_deterministic.
+Print Assumptions C16_serialised_commits.
+Print Assumptions C16_serialised_commits_verify.
+Print Assumptions C16_racy_commits_refuted.
+Print Assumptions C16_source_is_serialised.
